@@ -20,10 +20,12 @@
 #undef __atomic_exchange_n
 #undef __builtin_ia32_pause
 
+#include <type_traits>
 using namespace vt;
 
 static long long g_cell;     // the plain shared cell touched inside the critical section
-static int g_inside;         // overlap detector (harness-side observation, judged by the trace spec)
+static int g_inside;
+static bool g_wrap = false;         // overlap detector (harness-side observation, judged by the trace spec)
 
 template<class L> void name_vars(L &l);
 template<> void name_vars(frg::ticket_spinlock &l) {
@@ -35,6 +37,9 @@ template<> void name_vars(frg::simple_spinlock &l) { vars().names[(uintptr_t)&l.
 template<class L>
 void execute(const char *kind, int nthreads, int rounds, const std::vector<int> *schedule, Rng *rng, bool observe) {
 	L lock;
+	// --wrap: the ticket counters start two steps before the 32-bit wrap-around, so that tickets and the serving counter
+	// pass it during the execution (the lock must behave the same: it compares tickets for equality)
+	if constexpr (std::is_same_v<L, frg::ticket_spinlock>) { if(g_wrap) { lock.next_ticket_ = 0xFFFFFFFEu; lock.serving_ticket_ = 0xFFFFFFFEu; } }
 	vars().clear();
 	name_vars(lock);
 	g_cell = 0; g_inside = 0;
@@ -97,6 +102,7 @@ int main(int argc, char **argv) {
 	int nthreads = a.num("threads", 2), rounds = a.num("rounds", 2);
 	long long from = a.num("from", 0);
 	bool observe = a.has("observe");
+	g_wrap = a.has("wrap");
 	auto go = [&](const std::vector<int> *sch, Rng *rng) {
 		if(kind == "ticket") execute<frg::ticket_spinlock>("ticket", nthreads, rounds, sch, rng, observe);
 		else execute<frg::simple_spinlock>("simple", nthreads, rounds, sch, rng, observe);
